@@ -30,7 +30,7 @@ PROPS["C19"] = {
              "localhost) x port parts (absent, valid incl. 0/80/65535, empty, >65535, overlong, negative, non-numeric, unspecified forms) x "
              "structural mutations (junk after ']', missing/doubled/empty brackets, bad groups, doubled colon, bad IPv4), through "
              "Address(string), Address(host,Port) and Port(string). A reference grammar classifies each text must-accept / must-reject / "
-             "unspecified. Non-trivial = compressed IPv6, boundary port, rejected port form, or a structural mutation; distinct = hash of the text. One case in four (by a hash of its bytes) runs with the process's global C++ locale set to one that groups digits (classic + numpunct grouping 3): protocol text must not change."),
+             "unspecified. Non-trivial = compressed IPv6, boundary port, rejected port form, or a structural mutation; distinct = hash of the text. One case in four (by a hash of its bytes) runs with the process's global C++ locale set to one that groups digits (classic + numpunct grouping 3): protocol text must not change. Address(const char*) is used for half of the NUL-free texts and the parsed address is moved once before it is read."),
     "engine": "rapidcheck+libFuzzer",
     "technique": "property-based testing (rapidcheck) and libFuzzer against a reference address grammar (accept/reject classes, inet_pton/inet_ntop canonical form) plus a print/re-parse round trip",
     "level_text": "Generated-input search against a reference grammar written for the harness; checks both directions (valid forms accepted with exact host/port/family and re-parseable printing; invalid ports and malformed literals rejected with std::invalid_argument). Exploration only.",
@@ -50,7 +50,7 @@ PROPS["C18"] = {
              "MediaType(type,sub[,suffix])+setQuality+setParam; and an invalid half (truncation after / + ; = q=, absurd q-values, byte "
              "mutations, random bytes). Every text is parsed twice: fromString and fromRaw on a buffer ending at a PROT_NONE guard page. "
              "Non-trivial = has a q-value, parameter or suffix, or a mutated text ending at a separator / with an absurd or buffer-final q. "
-             "Distinct = hash of the text."),
+             "Distinct = hash of the text. Each valid text goes through four doors: fromString(const&), fromRaw on the guard page, the parsing constructor MediaType(text, DoParse), and fromString(&&) whose result is copied, the first object destroyed and its memory re-used before the copy is read."),
     "engine": "rapidcheck+libFuzzer",
     "technique": "property-based testing (rapidcheck) and libFuzzer: generator-AST round-trip oracle, toString()==input, constructed->text->parsed equality, 415-or-parse for mutants, guard-page buffer for over-reads",
     "level_text": "Generated-input search whose oracle is the generator's own AST (independent of the parser) plus a guard page that turns any read past the given length into a fault. Exploration only.",
@@ -69,7 +69,7 @@ PROPS["C17"] = {
              "names that begin with a built-in attribute name) checked by write->parse->compare->write, by hand-serialised text with shuffled "
              "attribute order / name case / spacing, Cookie headers of 0-8 pairs (repeated names, equal and different values) into a jar via "
              "addFromRaw and add, and mutated cookie strings (byte edits, truncation after = ; and attribute names, absurd Max-Age / Expires). "
-             "Non-trivial = >=3 attributes or >=2 extension attributes, a jar with a repeated name or >=3 pairs, any mutated string. Distinct = hash of the text. One case in four (by a hash of its bytes) runs with the process's global C++ locale set to one that groups digits (classic + numpunct grouping 3): protocol text must not change."),
+             "Non-trivial = >=3 attributes or >=2 extension attributes, a jar with a repeated name or >=3 pairs, any mutated string. Distinct = hash of the text. One case in four (by a hash of its bytes) runs with the process's global C++ locale set to one that groups digits (classic + numpunct grouping 3): protocol text must not change. A jar is also walked with 'cur = it++; use(*cur)': the iterator post-increment returns must be the position it left."),
     "engine": "rapidcheck+libFuzzer",
     "technique": "property-based testing (rapidcheck) and libFuzzer: generated-cookie round trip compared field by field, jar contents vs the generated pair set, exactly-once iteration, parse-or-std::exception for mutants under ASan/UBSan with a guard-page buffer",
     "level_text": "Generated-input search whose oracle is the generated cookie / pair list (independent of the parser). Exploration only.",
@@ -89,7 +89,7 @@ PROPS["C16"] = {
              "constructors), Location, Server, User-Agent, Access-Control-*, Expect - checked write->Header::parse->compare->write and write->request "
              "through RequestParser->tryGet<H>->compare; (b) a request with 1-12 header lines (registered and unknown names in random capitalisation, "
              "duplicates, values over VCHAR/SP/HTAB/obs-text incl. empty, 0-3 spaces after the colon) and lookups under three capitalisations. "
-             "Non-trivial = list with >=2 elements / boundary value / Date / Host without port or IPv6 / every lookup case; distinct = hash of the written text or message. One case in four (by a hash of its bytes) runs with the process's global C++ locale set to one that groups digits (classic + numpunct grouping 3): protocol text must not change."),
+             "Non-trivial = list with >=2 elements / boundary value / Date / Host without port or IPv6 / every lookup case; distinct = hash of the written text or message. One case in four (by a hash of its bytes) runs with the process's global C++ locale set to one that groups digits (classic + numpunct grouping 3): protocol text must not change. Registered headers are also fetched through the throwing get(name), and list() must hold exactly the registered names sent."),
     "engine": "rapidcheck+libFuzzer",
     "technique": "property-based testing (rapidcheck) and libFuzzer: generated-value round trip by two routes (Header::parse and through the request parser) and a first-occurrence / any-capitalisation lookup model",
     "level_text": "Generated-input search whose oracle is the generated value and the generated header list. Exploration only.",
@@ -109,7 +109,7 @@ PROPS["C01"] = {
              "boundaries, arbitrary octets) serialised by the harness's own writer; one third get 1-3 near-well-formed mutations (byte edits, CRLF->LF/CR, bad chunk size / Content-Length / "
              "version / method / status, missing colon, CL+TE, garbage typed header, NUL/high byte, lone CR, truncation). Each message is delivered under ALL n-1 single cuts, byte-by-byte, "
              "and 4 generated multi-cut sets. Non-trivial = message with a body or >=3 headers (every such message has cuts inside tokens, between CR and LF and inside chunk framing because "
-             "single cuts are exhaustive); distinct = hash of the wire bytes. oracle_subchecks counts the prefix / feed comparisons made. Server-level stage: one complete request in five follows a request whose handler arms a response time-out (timeoutAfter 60 ms) and parks the writer, and is written with a pause spanning that expiry."),
+             "single cuts are exhaustive); distinct = hash of the wire bytes. oracle_subchecks counts the prefix / feed comparisons made. Server-level stage: one complete request in five follows a request whose handler arms a response time-out (timeoutAfter 60 ms) and parks the writer, and is written with a pause spanning that expiry. While a history runs, a companion keeps two other connections of the endpoint (both workers; a thread each) busy with one valid request carrying a Date, cookies, a content type, Accept and Cache-Control: every answer must be the 200 with the digest of a fresh parse. Obsolete line folding (a space in the header block becomes CRLF SP / CRLF HTAB) is one of the mutations."),
     "engine": "rapidcheck+libFuzzer",
     "technique": "property-based testing (rapidcheck) and libFuzzer: metamorphic prefix-consistency (incremental vs fresh one-shot parser) under exhaustive single cuts + byte-wise + sampled multi-cuts, outcome-independence over read boundaries, and an absolute AST oracle for completion and content",
     "level_text": "Generated messages x exhaustive single cuts and byte-by-byte delivery per message, sampled multi-cut sets; the AST oracle is independent of the parser. Exploration: messages are sampled, the 2^(n-1) segmentations are covered exhaustively only for the single-cut and all-cut members.",
@@ -130,7 +130,7 @@ PROPS["C03"] = {
              "generated size limit (16..16384), reset as Http::Handler::onInput / the client do; (c) every registered header's parse(), Cookie, CookieJar, MediaType (guard-page buffer), "
              "Address, Port, Base64Decoder on mutated seeds or random text. Oracle: ASan+container annotations, UBSan, asserts, watchdog, live-heap and largest-allocation bound 64*limit+1MiB "
              "via the sanitizer allocator hooks, only std::exception subclasses escape. Non-trivial = >=2 segments and (mutated, or reached Done/error, or raw bytes); value-parser cases all count. "
-             "Distinct = hash of (bytes, limit, cut count). Server-level stage: one complete request in five follows a request whose handler arms a response time-out (timeoutAfter 60 ms) and parks the writer, and is written with a pause spanning that expiry."),
+             "Distinct = hash of (bytes, limit, cut count). Server-level stage: one complete request in five follows a request whose handler arms a response time-out (timeoutAfter 60 ms) and parks the writer, and is written with a pause spanning that expiry. While a history runs, a companion keeps two other connections of the endpoint (both workers; a thread each) busy with one valid request carrying a Date, cookies, a content type, Accept and Cache-Control: every answer must be the 200 with the digest of a fresh parse."),
     "engine": "libFuzzer+rapidcheck",
     "technique": "coverage-guided fuzzing (libFuzzer, ASan+UBSan+container annotations) and rapidcheck on one case function with structure-aware and byte-level decoders; oracle = sanitizers + termination watchdog + allocator-hook memory bound + exception-type check",
     "level_text": "Generated/fuzzed byte sequences x segmentations; the oracle asserts safety, termination and the memory bound only, so it cannot be fooled by what the right answer is. Exploration only.",
@@ -149,7 +149,7 @@ PROPS["C04"] = {
              "each in its own generated segmentation), each delivered completely or abandoned by an error: connection size limit placed inside a body (413 path), a later chunk-size line made "
              "invalid, both Content-Length and Transfer-Encoding, or one near-well-formed mutation. The reused parser is driven with the callers' reset discipline; each element is also given "
              "to a fresh parser in the same segmentation and outcomes are compared after every feed. Non-trivial = some non-last element has a body in progress or a Cookie/Set-Cookie header "
-             "and the next element has a different framing kind; distinct = hash of the history and limit. Server-level stage: one complete request in five follows a request whose handler arms a response time-out (timeoutAfter 60 ms) and parks the writer, and is written with a pause spanning that expiry."),
+             "and the next element has a different framing kind; distinct = hash of the history and limit. Server-level stage: one complete request in five follows a request whose handler arms a response time-out (timeoutAfter 60 ms) and parks the writer, and is written with a pause spanning that expiry. While a history runs, a companion keeps two other connections of the endpoint (both workers; a thread each) busy with one valid request carrying a Date, cookies, a content type, Accept and Cache-Control: every answer must be the 200 with the digest of a fresh parse."),
     "engine": "rapidcheck+libFuzzer",
     "technique": "property-based testing (rapidcheck) and libFuzzer over generated message histories: differential oracle reused-parser vs fresh-parser after every feed (stateful, whole history shrinks as one value)",
     "level_text": "Generated histories with a differential oracle (same element, same segmentation, fresh parser). Exploration only.",
@@ -169,7 +169,7 @@ PROPS["C10"] = {
              "followed by 1-30 queries (method x path of 0-5 segments over {a,b,c,d} with random extra slashes) routed through Rest::Router::route. Reference model: list of live patterns, "
              "naive matcher, winner = lexicographic minimum of the per-segment class vector fixed<parameter<optional<wildcard (ties accepted either way and counted), bindings in order; "
              "no match under the method -> NotAllowed iff the model matches under another method, else NotFound / not-found handler exactly once. Non-trivial = >=2 patterns match one query, "
-             "or a 405 case, or the history contains a remove; distinct = hash of (history, queries). oracle_subchecks = queries routed."),
+             "or a 405 case, or the history contains a remove; distinct = hash of (history, queries). oracle_subchecks = queries routed. Each route is registered through one of the three public doors (Router::addRoute, the per-method members get/post/put/del/head, the free functions Rest::Routes::Get ...) and removed through removeRoute or Routes::Remove, by the route's id and text."),
     "engine": "rapidcheck+libFuzzer",
     "technique": "model-based property testing (rapidcheck, libFuzzer on the same case function): add/remove histories and queries against a naive reference router with an explicit precedence order",
     "level_text": "Model-based generated-history search; the reference matcher shares no code with the segment tree. Exploration only. The Allow header's method set is checked on the wire by the C09 harness (in-process the response writer has no transport).",
@@ -293,7 +293,7 @@ PROPS["C05"] = {
              "harness's own strict RFC 7230 reader checks status line, every header/cookie exactly once, exact framing, body/decoded chunks, nothing after the message, send() promise value and "
              "getResponseSize() = bytes on the wire. Fixed responses are repeated with maxResponseSize = s-2, s-1, s, s+1, 2s around the exact serialised size s: over the limit the promise "
              "must be rejected and nothing emitted (a probe request on the same connection must be answered next). Non-trivial = non-empty body/stream and (limit within +-2 of s, or a "
-             "chunk at a hex-length boundary, or a body at a doubling boundary); distinct = hash of the specification and limit variant. One case in four (by a hash of its bytes) runs with the process's global C++ locale set to one that groups digits (classic + numpunct grouping 3): protocol text must not change."),
+             "chunk at a hex-length boundary, or a body at a doubling boundary); distinct = hash of the specification and limit variant. One case in four (by a hash of its bytes) runs with the process's global C++ locale set to one that groups digits (classic + numpunct grouping 3): protocol text must not change. A fixed response without a Content-Type header of its own gets text/plain through the third argument of send() or through setMime() (by the body's size): exactly one Content-Type: text/plain must be emitted."),
     "engine": "rapidcheck",
     "technique": "property-based testing (rapidcheck) against a live endpoint: generated response specifications, independent strict HTTP grammar as the oracle, boundary-directed maximum-response-size configurations",
     "level_text": "Generated specifications x configurations against the real server over loopback; the message grammar is written for the harness and shares no code with pistache. Exploration only. libFuzzer is not used (network round trip per case, no useful coverage signal across threads).",
@@ -314,7 +314,7 @@ PROPS["C02"] = {
              "response specification (any status code, typed headers, 0-4 cookies with any attribute combination, fixed body or a stream of write / operator<< / flush operations). The request "
              "goes through Http::Experimental::Client to a live Http::Endpoint; the handler records method, resource, query, raw and typed headers, cookies and body; the client-side Response "
              "is recorded from the promise. Both are compared with the specifications; exactly one handler call and exactly one settlement per request. Sequential exchanges reuse pooled "
-             "keep-alive connections. Non-trivial = request has a body, query or cookie and response has a body or cookie; distinct = hash of both specifications. One case in four (by a hash of its bytes) runs with the process's global C++ locale set to one that groups digits (classic + numpunct grouping 3): protocol text must not change."),
+             "keep-alive connections. Non-trivial = request has a body, query or cookie and response has a body or cookie; distinct = hash of both specifications. One case in four (by a hash of its bytes) runs with the process's global C++ locale set to one that groups digits (classic + numpunct grouping 3): protocol text must not change. The request method goes through the client's per-method members (post/put/patch/del) or through get() + RequestBuilder::method(), the body through either overload of body()."),
     "engine": "rapidcheck",
     "technique": "property-based testing (rapidcheck): generated request/response specifications through the real client and server over loopback, with the specification (not the serialiser) as the round-trip oracle",
     "level_text": "Generated specifications through both real endpoints of the library. Exploration only. libFuzzer is not used (network round trip per case).",
@@ -357,7 +357,7 @@ PROPS["C08"] = {
              "400 KiB response is pending behind a 4 KiB receive window / silence until the idle time-out. The handler records onConnection, onRequest and onDisconnection per Peer::getID() and "
              "keeps a weak_ptr to every peer. Oracle after every round: each peer's callbacks are exactly one connect, request*, exactly one disconnect, no request after the disconnect; at the "
              "end every Peer object has expired, /proc/self/fd is back to the idle baseline (taken after a warm-up connection) and a fresh connection is served. Non-trivial = >=2 termination kinds and >=1 connection ended with a request or response in flight; distinct = "
-             "hash of the configuration and scripts. oracle_subchecks = rounds run."),
+             "hash of the configuration and scripts. oracle_subchecks = rounds run. With 1 s time-outs and a single worker a choreographed round follows: an idle connection past its time-out that closes while the worker is held, two other connections holding the worker (handlers that do not answer) so that the idle tick, that close and a slow request fall into one wake-up, and a late-comer that is given the freed descriptor number and must get its 200."),
     "engine": "rapidcheck",
     "technique": "property-based testing (rapidcheck) over generated connection-event histories against a live endpoint; oracle = history invariants per peer (callback word), object-lifetime and descriptor-count balance",
     "level_text": "Generated histories of connection events against the real server, with invariants over the observed callback history and process resources. Exploration only.",
@@ -453,7 +453,7 @@ PROPS["C09"] = {
              "The same cases run under the asan build and under the tsan build. One case in three is instead a shared-router case without sockets: 2-4 plain threads call "
              "Router::route() on one shared router with generated requests (statuses checked against the same table) - nothing orders those threads, so under the tsan build any unsynchronised "
              "access to the router's shared state is reported whatever the timing. Non-trivial = >=2 workers, >=2 clients and >=3 methods in the mix, or a shutdown point other than idle; "
-             "distinct = hash of the configuration and choice stream. oracle_subchecks = cases run. In a third of the wire-level cases a client asks for an answer that comes 40 ms later from another thread (/slow/:ms) and closes at once; three connections made right after must receive nothing unasked and exactly their own answer to their own request."),
+             "distinct = hash of the configuration and choice stream. oracle_subchecks = cases run. In a third of the wire-level cases a client asks for an answer that comes 40 ms later from another thread (/slow/:ms) and closes at once; three connections made right after must receive nothing unasked and exactly their own answer to their own request. Requests carry typed headers derived from their tag (HTTP dates in the three formats, cookies, Accept with qualities, Cache-Control), so that the workers parse them at the same moment."),
     "engine": "rapidcheck (asan and tsan builds)",
     "technique": "property-based testing (rapidcheck) of generated load / shutdown configurations against a live multi-worker endpoint under ThreadSanitizer and AddressSanitizer; oracle = per-request response identity against an independent route table, shutdown/thread-count bounds, sanitizer reports filtered to pistache frames",
     "level_text": "Decides the functional half (exactly one correct response per request, shutdown terminates, threads gone) on generated configurations; the race-freedom half only as far as a dynamic detector on OS-chosen schedules can. Schedules are sampled, not owned.",
